@@ -18,8 +18,9 @@ func init() {
 			"(R1) operator tables are total and consistent: each of the 18 operator constants has an arm in Where, at least one name in operatorNames, and an arm in the complies method of the condition type Where routes it to (routing by finite-valuation propagation); " +
 			"(R2) parser progress and guards: no loop iteration in ParseQuery/parseAndOr/extractSnippets without consuming input, snippet and condition indexing is guarded, every clause keyword of ParseQuery (other than where) terminates a root where-clause, escape handling is applied before quote handling in every tokenizer iteration; " +
 			"(R3) byte-offset slicing of the ranged string with bound i+1 happens only for ASCII characters. " +
+			"(R4) every constant-bound index/slice in the functions statically reachable from ParseQuery is dominated by a length test implying the bound. " +
 			"NOT decided (named in the statement, out of reach for a sound static rule): print->parse->print identity, same-records equivalence, backslash escape symmetry, conditions ending in a parenthesised group.",
-		Rules: []ruleFn{c11R1, c11R2, c11R3},
+		Rules: []ruleFn{c11R1, c11R2, c11R3, c11R4},
 	})
 }
 
@@ -349,4 +350,11 @@ func c11R3(c *Ctx, r *Report) {
 	if n == 0 {
 		r.Trivial(rule, fnKey(fn)+" / text[..:pos+1]", "no pos+1 slicing of the ranged string")
 	}
+}
+
+func c11R4(c *Ctx, r *Report) {
+	const rule = "C11-R4"
+	r.SetFloor(rule, 1)
+	boundsRule(c, r, rule, "parsing an arbitrary query string",
+		"database/query.ParseQuery")
 }
